@@ -445,6 +445,8 @@ impl DiskIO {
         if verif_fault == 1 {
             return Err(FeoxError::IoError(crate::verif::injected("write", "before")));
         }
+        #[cfg(feoxdb_verif)]
+        crate::verif::emit("wb", &[], sector, (data.len() / FEOX_BLOCK_SIZE) as u64, 0);
         let offset = sector * FEOX_BLOCK_SIZE as u64;
 
         #[cfg(unix)]
@@ -595,6 +597,8 @@ impl DiskIO {
     }
 
     pub(crate) fn poison_writes(&self, error: FeoxError) -> FeoxError {
+        #[cfg(feoxdb_verif)]
+        crate::verif::emit("poisoned", &[], 0, 0, 0);
         self.write_indeterminate.store(true, Ordering::Release);
         #[cfg(target_os = "linux")]
         mark_file_indeterminate(self.file_identity, &self._file);
@@ -899,6 +903,8 @@ impl DiskIO {
                 );
             }
 
+            #[cfg(feoxdb_verif)]
+            crate::verif::emit("wd", &[], queued as u64, first_error.is_some() as u64, 0);
             if let Some(error) = first_error {
                 return Err(error);
             }
